@@ -503,10 +503,29 @@ def gen_cached(ck, rng, cases, src):
     return out
 
 
+def gen_chains(ck, rng, cases):
+    """reference chains of ANY depth: a feature reaching its register through 1..100 pValue hops (Integer and Float
+    chains, a Boolean / Enumeration / Command on top), the availability and the lock of the register at the far end
+    flipped along the history - the answer of every node of the chain follows them at every depth"""
+    for depth in (1, 2, 31, 32, 33, 34, 40, 64, 100):
+        for top in ("Integer", "Float", "Boolean", "Command"):
+            g = [A.node("Integer", value=("slot", 1)), A.node("Integer", value=("slot", 0)),
+                 A.node("IntReg", access="RW", init=1, avail=0, lock=1)]
+            for i in range(depth):
+                g.append(A.node("Float" if top == "Float" else "Integer", value=("pvalue", len(g) - 1, [])))
+            if top == "Boolean":
+                g.append(A.node("Boolean", value=("node", len(g) - 1), on=1, off=0))
+            elif top == "Command":
+                g.append(A.node("Command", value=("node", len(g) - 1)))
+            ops = [("s", 1, 1), ("s", 0, 0), ("s", 1, 0), ("s", 0, 1)]
+            add(cases, g, ops, "reference chains of depth 1..100")
+
+
 def gen_cases(ck):
     rng = Rng(ck.seed)
     cases = []
     gen_minimal(ck, rng, cases)
+    gen_chains(ck, rng, cases)
     gen_combos(ck, rng, cases)
     gen_sources(ck, rng, cases)
     mal = gen_random(ck, rng, cases, 2500 if ck.tier == "quick" else 20000)
